@@ -43,6 +43,10 @@ FAMILIES = {
     "empty_anchor": ("$|^", lambda n: "a\nb" * min(n, 10), False),
     "empty_boundary": ("\\b", lambda n: "ab cd " * min(n, 8), False),
     "empty_lookahead": ("(?=a)", lambda n: "a" * min(n, 30), True),
+    # many short matcher activations: a lookbehind retried from every earlier position at every
+    # start position (quadratic number of sub-matcher runs, each far shorter than a poll interval)
+    "lb_scan_quadratic": ("(?<=b.*)c", lambda n: "a" * n, True),
+    "lb_scan_quadratic2": ("(?<!b.*)c", lambda n: "a" * n, True),
     "benign_scan": ("ab", lambda n: "a" * n, False),
     "quadratic_class": ("[a-c]+d", lambda n: "abc" * (n // 3), False),
 }
@@ -121,6 +125,8 @@ def gen_case(seed, i, tier="quick"):
             n = rng.choice((20, 26, 30))
     if fam == "benign_scan":
         n = rng.choice((10, 1000, 10000))   # linear: two steps per start position
+    if fam.startswith("lb_scan_quadratic"):
+        n = rng.choice((200, 600, 1500) if tier == "quick" else (200, 600, 1500, 4000))
     if rng.random() < 0.1:
         stack = rng.choice((8, 32))          # tiny backtrack stack: overflow path
     else:
